@@ -223,6 +223,8 @@ var execHashes *[]uint64
 
 // recordRuns, when non-nil (replay mode), collects every execution a judge
 // performs so that the replay can print the full event traces.
+var obsHashOnly bool
+
 var recordRuns *[]RunRecord
 
 type RunRecord struct {
@@ -402,7 +404,13 @@ func Execute(sc *Scenario, sched *simrt.Schedule) (out *Outcome) {
 			*recordRuns = append(*recordRuns, RunRecord{Ops: sc.Ops, Outcome: out})
 		}
 		if execHashes != nil {
-			*execHashes = append(*execHashes, hashStr(mustJSON(out))^out.TraceHash)
+			if obsHashOnly {
+				// what the property calls observable, and nothing else (not the number of
+				// steps taken, not the trace of seam events: cost is not for C15 to fix)
+				*execHashes = append(*execHashes, hashStr(strings.Join(c15Observable(out), "\x00")))
+			} else {
+				*execHashes = append(*execHashes, hashStr(mustJSON(out))^out.TraceHash)
+			}
 		}
 		out.Stats = w.Stats
 		if w.Sched != nil {
